@@ -487,3 +487,108 @@ Proof.
   unfold match_string. rewrite search_from_spec. split; intros (p & q & b' & s' & E & H); exists p, q, b', s'; split; auto;
     destruct p; exact H.
 Qed.
+
+(* ---------------- concurrent senders ---------------- *)
+(* Each sender is a goroutine sending its own stream; every event is its own object and the
+   subscribed channels keep no state, so what sender j's Sends deliver is [run subs stream_j]
+   whatever the others do, and the bus as a whole produces some interleaving of these
+   per-sender delivery sequences (at the granularity of one subscriber call).  An
+   interleaving is a sequence of (sender, delivery) whose projection on every sender is
+   that sender's sequence. *)
+From Coq Require Import Permutation.
+
+Definition proj {A} (j : nat) (l : list (nat * A)) : list A :=
+  map snd (filter (fun p => Nat.eqb (fst p) j) l).
+
+Definition is_interleaving {A} (seqs : list (list A)) (L : list (nat * A)) : Prop :=
+  Forall (fun p => (fst p < length seqs)%nat) L /\
+  forall j, (j < length seqs)%nat -> proj j L = nth j seqs [].
+
+Lemma perm_filter_split {A} (f : A -> bool) l :
+  Permutation l (filter f l ++ filter (fun x => negb (f x)) l).
+Proof.
+  induction l as [|x l IH]; cbn [filter]; [constructor|].
+  destruct (f x); cbn [negb app].
+  - constructor; exact IH.
+  - apply Permutation_cons_app; exact IH.
+Qed.
+
+Lemma perm_filter {A} (f : A -> bool) l l' : Permutation l l' -> Permutation (filter f l) (filter f l').
+Proof.
+  induction 1; cbn [filter].
+  - constructor.
+  - destruct (f x); [constructor|]; assumption.
+  - destruct (f x), (f y); try constructor; apply Permutation_refl.
+  - eapply Permutation_trans; eassumption.
+Qed.
+
+Lemma proj_filter_other {A} j K (l : list (nat * A)) :
+  j <> K -> proj j (filter (fun p => negb (Nat.eqb (fst p) K)) l) = proj j l.
+Proof.
+  intros N. unfold proj. induction l as [|p l IH]; cbn [filter]; [reflexivity|].
+  destruct (Nat.eqb (fst p) K) eqn:E1; cbn [negb filter].
+  - apply Nat.eqb_eq in E1. destruct (Nat.eqb (fst p) j) eqn:E2; [apply Nat.eqb_eq in E2; lia|]. exact IH.
+  - destruct (Nat.eqb (fst p) j); cbn [map]; rewrite IH; reflexivity.
+Qed.
+
+Lemma tagged_perm {A} K : forall (l : list (nat * A)),
+  Forall (fun p => (fst p < K)%nat) l ->
+  Permutation (map snd l) (concat (map (fun j => proj j l) (seq 0 K))).
+Proof.
+  induction K as [|K IH]; intros l H.
+  - destruct l as [|p l]; [constructor|]. inversion H; lia.
+  - rewrite seq_S, map_app, concat_app. cbn [map concat plus]. rewrite app_nil_r.
+    set (l' := filter (fun p => negb (Nat.eqb (fst p) K)) l).
+    assert (Forall (fun p => (fst p < K)%nat) l') as H'.
+    { apply Forall_forall. intros p Hp. apply filter_In in Hp as [Hp Hn].
+      rewrite Forall_forall in H. specialize (H p Hp). apply Bool.negb_true_iff, Nat.eqb_neq in Hn. lia. }
+    eapply Permutation_trans.
+    { apply Permutation_map. apply (perm_filter_split (fun p => negb (Nat.eqb (fst p) K))). }
+    rewrite map_app. apply Permutation_app.
+    + eapply Permutation_trans; [apply (IH l' H')|].
+      erewrite map_ext_in; [apply Permutation_refl|].
+      intros j Hj. apply in_seq in Hj. apply proj_filter_other. lia.
+    + unfold proj. erewrite filter_ext; [apply Permutation_refl|].
+      intros p. cbn. apply Bool.negb_involutive.
+Qed.
+
+Lemma map_nth_seq {A} (d : A) l : map (fun j => nth j l d) (seq 0 (length l)) = l.
+Proof.
+  induction l as [|x l IH]; cbn [length seq map nth]; [reflexivity|].
+  f_equal. rewrite <- seq_shift, map_map. exact IH.
+Qed.
+
+Lemma interleaving_perm {A} (seqs : list (list A)) L :
+  is_interleaving seqs L -> Permutation (map snd L) (concat seqs).
+Proof.
+  intros [Ht Hp]. eapply Permutation_trans; [apply tagged_perm; exact Ht|].
+  erewrite map_ext_in; [rewrite map_nth_seq; apply Permutation_refl|].
+  intros j Hj. apply in_seq in Hj. apply Hp. lia.
+Qed.
+
+Lemma run_concat subs streams : run subs (concat streams) = concat (map (run subs) streams).
+Proof.
+  unfold run. induction streams as [|s l IH]; cbn [concat map]; [reflexivity|].
+  rewrite flat_map_app, IH. reflexivity.
+Qed.
+
+(* per sender: what channel c saw of sender j, in arrival order, is exactly what c receives
+   from sender j's stream alone - its own events never overtake each other *)
+Lemma interleaving_sender_order cfg streams L c j :
+  is_interleaving (map (run (wire cfg)) streams) L ->
+  (j < length streams)%nat ->
+  on_chan c (proj j L) = received cfg (nth j streams []) c.
+Proof.
+  intros [_ Hp] Hj. rewrite Hp by (rewrite map_length; exact Hj).
+  change (@nil delivery) with (run (wire cfg) []). rewrite map_nth. reflexivity.
+Qed.
+
+(* as a multiset: what channel c saw of all senders together is what it would receive from
+   all their events sent one after the other - every event exactly copies-many times *)
+Lemma interleaving_multiset cfg streams L c :
+  is_interleaving (map (run (wire cfg)) streams) L ->
+  Permutation (on_chan c (map snd L)) (spec_received cfg (concat streams) c).
+Proof.
+  intros H. rewrite <- route_exact. unfold received. rewrite run_concat.
+  unfold on_chan. apply Permutation_map, perm_filter, interleaving_perm, H.
+Qed.
